@@ -244,7 +244,7 @@ def fam_churn(rng):
 def fam_cache(rng):
     th = []
     t = 1
-    ops = [{"op": "cache_new", "x": 0, "c": 0}]
+    ops = [{"op": "cache_new", "x": 0, "c": 0, "m": rng.random() < 0.4}]
     for i in range(rng.randrange(2, 6)):
         x = rng.random()
         if x < 0.6:
@@ -258,7 +258,7 @@ def fam_cache(rng):
     th.append(ops)
     for t in range(2, 2 + rng.choice([1, 1, 2])):
         if rng.random() < 0.3:
-            ops = [{"op": "cache_new", "x": 10 + t, "c": 0}, {"op": "cache_load", "x": 10 + t}, {"op": "cache_load", "x": 10 + t}]
+            ops = [{"op": "cache_new", "x": 10 + t, "c": 0, "m": rng.random() < 0.4}, {"op": "cache_load", "x": 10 + t}, {"op": "cache_load", "x": 10 + t}]
         else:
             ops = writer_ops(rng, t, 0, rng.randrange(1, 4))
             if rng.random() < 0.3:
@@ -479,7 +479,7 @@ def fam_access(rng):
 def fam_cache2(rng):
     """C16: many cache loads racing with many stores, addresses reused (stale 'unchanged' decisions)"""
     th = []
-    ops = [{"op": "cache_new", "x": 0, "c": 0}]
+    ops = [{"op": "cache_new", "x": 0, "c": 0, "m": rng.random() < 0.4}]
     for i in range(rng.randrange(4, 9)):
         ops.append({"op": "cache_load", "x": 0})
     th.append(ops)
@@ -647,9 +647,9 @@ def sandwich(tier="quick", start_id=0):
                                  "sched": {"kind": "segs", "segs": [[1, k1], [2, k2], [1, k3], [2, 9999], [1, 9999]]}})
     # Cache::load: a store lands at every point inside the load (between the "unchanged?" check and the reload),
     # another one afterwards reuses the freed address (A-B-A on the address, C16)
-    for strat in ("default", "nofast"):
+    for strat, mapped in (("default", False), ("nofast", False), ("default", True)):
         pc = {"threads": [[{"op": "new", "c": 0, "v": new()}],
-                          [{"op": "wait", "t": 0}, {"op": "cache_new", "x": 0, "c": 0}, {"op": "cache_load", "x": 0},
+                          [{"op": "wait", "t": 0}, {"op": "cache_new", "x": 0, "c": 0, "m": mapped}, {"op": "cache_load", "x": 0},
                            {"op": "cache_load", "x": 0}, {"op": "cache_load", "x": 0}],
                           [{"op": "wait", "t": 0}] + warm2 + [{"op": "store", "c": 0, "v": new()} for _ in range(4)]],
               "strategy": strat, "reuse": "lifo"}
